@@ -307,7 +307,31 @@ def h3(proj, rep):
                     rep.ok('H3', f.qual, 'two-qubit scatter [i0, i1, i0+n, i1+n]', m, n)
                 elif None not in pat:
                     rep.violation('H3', f.qual, f'two-qubit scatter index {ast.unparse(n.value.args[0])} is not [gate[1], gate[2], gate[1]+n, gate[2]+n]', m, n)
-    return 1 + nidx
+    # index dtype: positions up to 2n-1 are added to num_qubit: a narrow integer dtype wraps silently for large registers
+    narrow = [n for n in ast.walk(lp) if isinstance(n, ast.Call) and any(k.arg == 'dtype' and ast.unparse(k.value).split('.')[-1] in ('uint8', 'int8', 'uint16', 'int16')
+              for k in n.keywords) and any(isinstance(x, ast.Name) and x.id == 'gate' for x in ast.walk(n))]
+    extra = 0
+    if narrow:
+        rep.violation('H3', f.qual, f'`{ast.unparse(narrow[0])[:70]}`: the qubit positions are held in a narrow integer dtype; `+ num_qubit` wraps modulo 256 without '
+                      f'warning for registers of 129 qubits or more, so the gate tableau is scattered into the wrong rows and columns', m, narrow[0])
+        extra += 1
+    # the embedding is unconditional: every path of the loop body scatters the gate tableau through `index`
+    scat = [n for n in ast.walk(lp) if isinstance(n, ast.Assign) and isinstance(n.targets[0], ast.Subscript) and 'index' in ast.unparse(n.targets[0].slice)]
+    if scat:
+        extra += 1
+        cond = None
+        for n in scat:
+            par = n._parent
+            if isinstance(par, ast.If) and par is not lp:
+                other = par.orelse if n in par.body else par.body
+                if other and not any(isinstance(o, ast.Assign) and isinstance(o.targets[0], ast.Subscript) and 'index' in ast.unparse(o.targets[0].slice) for o in other):
+                    cond = par
+        if cond is not None:
+            rep.violation('H3', f.qual, f'the scatter through `index` is skipped on the path `if {ast.unparse(cond.test)[:50]}`: `index` also encodes the ORDER of the gate\'s '
+                          f'qubits, so using the gate tableau unembedded treats CX(1,0) as CX(0,1)', m, cond)
+        else:
+            rep.ok('H3', f.qual, 'the gate tableau is always embedded through `index`', m, scat[0])
+    return 1 + nidx + extra
 
 
 def _idx_pat(e):
